@@ -152,7 +152,7 @@ def validate_steps(consts, traces, ctx, name, timeout=900, replay_module=None):
     return [results[i + 1] for i in range(len(traces))]
 
 
-CALLS = {"C2": [2], "C3": [3], "C0": [0], "C21": [2, 1], "C102u": [1, 0, (2, False)], "C2u": [(2, False)], "C22": [2, 2]}
+CALLS = {"C2": [2], "C3": [3], "C222": [2, 2, 2], "C0": [0], "C21": [2, 1], "C102u": [1, 0, (2, False)], "C2u": [(2, False)], "C22": [2, 2]}
 
 
 def scen_for(calls_name, nw, wq, rq, judge):
